@@ -109,6 +109,31 @@ theorem ply_reads_spec_mesh_ascii_bytes (c : Coding α) (L : GoFloatText c) (Z :
   rw [hfaces, findFaceProps_ref fe htex]
   simp [assemble, bind, Except.bind, pure, Except.pure]
 
+/-- ASCII: A FACE OF ANOTHER SIZE IS REJECTED (0, 1, 2 indices: the size check; ≥ 5: the ASCII list reader's `Int` fails —
+an error here, not ignored as in binary) -/
+theorem ply_spec_mesh_other_size_rejected_ascii (c : Coding α) (L : GoFloatText c) (Z : SpecIntText c) (f : SpecFile α)
+    (fe : SpecFaceElem α) (hok : SpecHeaderOK f) (hf : f.format = .ascii) (hprops : f.vprops ≠ [])
+    (hface : f.face = some fe) (htex : fe.tex = none) (henc : ∀ fc ∈ fe.faces, FaceEncOK fe fc)
+    (pre : List (SpecFace α)) (bad : SpecFace α) (post : List (SpecFace α)) (hfaces : fe.faces = pre ++ bad :: post)
+    (hpre : ∀ fc ∈ pre, TriOrQuad fc) (hbad : ¬ TriOrQuad bad)
+    (htyped : ∀ r ∈ f.verts, r.map Datum.ty = f.vprops.map (·.ty))
+    (hrange : ∀ r ∈ f.verts, ∀ d ∈ r, Datum.InRange c L Z d)
+    (bl : List (Built × List Nat))
+    (hbuilt : bl.map (·.1) = buildAll false (specProps f) defaultReaders true)
+    (hloc : ∀ p ∈ bl, LocatedA (f.vprops.map (·.ty)) p.1 p.2) :
+    readMesh c defaultReader (refEncode c f) = .error .err := by
+  simp only [readMesh, refEncode, parse_specHeader f hok, bind, Except.bind]
+  have henc' : ∀ fc ∈ pre ++ bad :: post, FaceEncOK fe fc := by rw [← hfaces]; exact henc
+  have hrej := readFacesAscii_ref_reject c fe htex pre bad post
+    (fun fc h => ⟨henc' fc (by simp [h]), hpre fc h⟩) (henc' bad (by simp)) hbad
+    ⟨[0, 0, 0, 0], List.replicate 8 (c.ofInt 0)⟩ ⟨rfl, by simp⟩
+  rw [← hfaces] at hrej
+  rw [ply_spec_readback_vertex_ascii c L Z f hf hprops htyped hrange bl hbuilt hloc,
+    faceStageAscii_spec c f fe hface, hface]
+  simp only []
+  rw [hrej, findFaceProps_ref fe htex]
+  simp [bind, Except.bind]
+
 /-! ### non-vacuity: the mesh of `exMesh`, ASCII, with non-negative data (the toy coding parses digits only) -/
 
 def toyIntLaw : SpecIntText toyCodingA where
@@ -145,6 +170,36 @@ example : readMesh toyCodingA defaultReader (refEncode toyCodingA exMeshA)
       rcases hfc with rfl | rfl
       · exact Or.inl rfl
       · exact Or.inr rfl)
+    (by decide)
+    (by
+      intro r hr d hd
+      simp only [exMeshA, List.mem_cons, List.not_mem_nil, or_false] at hr
+      rcases hr with rfl | rfl | rfl | rfl <;>
+        (simp only [List.mem_cons, List.not_mem_nil, or_false] at hd
+         rcases hd with rfl | rfl | rfl | rfl <;> trivial))
+    exBlA (by decide)
+    (by
+      intro p hp
+      simp only [exBlA, List.mem_cons, List.not_mem_nil, or_false] at hp
+      rcases hp with rfl | rfl
+      · exact (locatedNamedAB_sound (specProps exMeshA) _ _ (by decide)).loc
+      · exact (locatedNamedAB_sound (specProps exMeshA) _ _ (by decide)).loc)
+
+/-- the ASCII file with a pentagon in second place is rejected -/
+example : readMesh toyCodingA defaultReader (refEncode toyCodingA
+      { exMeshA with face := some { exMesh.exFaces with faces := [⟨[0, 1, 2], [], []⟩, ⟨[0, 1, 2, 3, 0], [], [5]⟩, ⟨[1, 2, 3], [], []⟩] } })
+    = .error .err :=
+  ply_spec_mesh_other_size_rejected_ascii toyCodingA toyLaw toyIntLaw _ _
+    ⟨by decide, by intro i hi; simp [exMeshA, exMesh, exFile] at hi, by decide,
+      by intro fe h; simp only [Option.some.injEq] at h; subst h; decide⟩
+    rfl (by decide) rfl rfl
+    (by
+      intro fc hfc
+      simp only [List.mem_cons, List.not_mem_nil, or_false] at hfc
+      rcases hfc with rfl | rfl | rfl <;> exact ⟨by decide, by decide, by decide, by decide⟩)
+    [⟨[0, 1, 2], [], []⟩] ⟨[0, 1, 2, 3, 0], [], [5]⟩ [⟨[1, 2, 3], [], []⟩] rfl
+    (by intro fc hfc; simp only [List.mem_cons, List.not_mem_nil, or_false] at hfc; subst hfc; exact Or.inl rfl)
+    (by simp [TriOrQuad])
     (by decide)
     (by
       intro r hr d hd
